@@ -42,6 +42,12 @@ func checkC12(c *Ctx) {
 		c.Undecided("C12-R1", "package tcell", "-", "not loaded")
 		return
 	}
+	c.Rule("C12-R15", "an 8-bit CSI (0x9b) reaches the mouse parsers: they are tried before the rune parser, or the rune parser leaves the byte alone (under a single-byte charset its decoder accepts or substitutes 0x9b and the introducer is consumed as text)")
+	c.Expect("C12-R15", 1)
+	checkEightBitCSIReachesMouseParsers(c, p, "C12-R15")
+	c.Rule("C12-R14", "the decimal accumulator of an SGR report saturates instead of wrapping around: a coordinate with more digits than an int holds is far beyond the screen and is clipped to the last column, not the first")
+	c.Expect("C12-R14", 1)
+	checkSgrAccumulatorSaturates(c, p, "C12-R14")
 	c.Rule("C12-R13", "the mouse parsers are tried whenever the terminal has a mouse entry, whatever the application's current mouse flags: a report already on its way when the mode is switched off still decodes as a report")
 	c.Expect("C12-R13", 2)
 	checkCollectGates(c, p, "C12-R13", func(n string) bool { return n == "parseXtermMouse" || n == "parseSgrMouse" })
